@@ -238,7 +238,7 @@ Construct(st, dv, x, f, n) ==                  \* x = new F(v) / new G(v);  F(v)
      ELSE LET r == Put(s1, dv, x, "b", n) IN IF r.out = "ok" THEN r ELSE R(st, r.out)
 
 Step(st, dv, o) ==
-  CASE o.op = "lit"      -> R(NewObj(st, o.x, "plain", IF o.f = "proto" THEN o.p ELSE "OP", LitOwn(st, dv, o.f, o.n)), "ok")
+  CASE o.op = "lit"      -> R(NewObj(st, o.x, "plain", IF o.f \in {"proto", "protogs"} THEN o.p ELSE "OP", LitOwn(st, dv, o.f, o.n)), "ok")
     [] o.op = "create"   -> R(NewObj(st, o.x, "plain", o.p, <<>>), "ok")
     [] o.op = "new"      -> Construct(st, dv, o.x, o.f, o.n)
     [] o.op = "func"     -> R(NewObj(st, o.x, "function", "FnP", <<>>), "ok")
